@@ -22,6 +22,23 @@ type c11Arg struct {
 	Proc  string `json:"proc"`
 	HIdx  int    `json:"hidx"` // index into the handle domain (first handle argument)
 	Bytes bool   `json:"bytes"`
+	Warm  bool   `json:"warm,omitempty"` // the request meets warm caches (a few lookups, reads and listings first) instead of a just-started server
+}
+
+// c11Warm fills the inode cache and the name caches of the objects the requests name.
+func c11Warm(w *World, hs [][]byte) {
+	root := fsx.RootFH()
+	fsx.Exec(w.Srv, fsx.Op{K: "READDIRPLUS", DirCnt: 8192, MaxCnt: 8192}, root, nil)
+	for _, n := range []string{"a", "d", "s", "new"} {
+		fsx.Exec(w.Srv, fsx.Op{K: "LOOKUP", N: n}, root, nil)
+	}
+	if d := fsx.Exec(w.Srv, fsx.Op{K: "LOOKUP", N: "d"}, root, nil); d.OK() {
+		fsx.Exec(w.Srv, fsx.Op{K: "LOOKUP", N: "x"}, d.FH, nil)
+		fsx.Exec(w.Srv, fsx.Op{K: "READDIR", Cnt: 8192}, d.FH, nil)
+	}
+	if f := fsx.Exec(w.Srv, fsx.Op{K: "LOOKUP", N: "a"}, root, nil); f.OK() {
+		fsx.Exec(w.Srv, fsx.Op{K: "READ", Off: 0, Cnt: 4096}, f.FH, nil)
+	}
 }
 
 type c11Res struct {
@@ -30,20 +47,24 @@ type c11Res struct {
 	Viols   []*report.Violation `json:"viols"`
 }
 
-func c11Setup(state string) (uint64, []fsx.Op) {
+func c11Setup(state string) (string, uint64, []fsx.Op) {
 	// (the first objects land in recycled inodes: their generations differ from the root's)
 	pop := []fsx.Op{{K: "MKDIR", H: "root", N: "t0"}, {K: "CREATE", H: "root", N: "t1"}, {K: "RMDIR", H: "root", N: "t0"}, {K: "REMOVE", H: "root", N: "t1"}, {K: "RESTART"},
 		{K: "MKDIR", H: "root", N: "d"}, {K: "CREATE", H: "root", N: "a"}, {K: "WRITE", H: "root/a", Off: 0, Cnt: 9000, Pat: 0x61, Stable: 2}, {K: "CREATE", H: "root/d", N: "x"},
 		{K: "SYMLINK", H: "root", N: "s", Target: "a"}, {K: "CREATE", H: "root", N: "gone"}, {K: "REMOVE", H: "root", N: "gone"}}
 	switch state {
 	case "populated":
-		return 3000, pop
+		return "", 3000, pop
+	case "inodes":
+		// the inode table exhausted but for two numbers (prepared state: 32765 files), objects in recycled inodes
+		return "inofull", 4000, []fsx.Op{{K: "REMOVE", H: "root/bulk", N: "f00000"}, {K: "REMOVE", H: "root/bulk", N: "f16000"}, {K: "REMOVE", H: "root/bulk", N: "f32700"},
+			{K: "CREATE", H: "root", N: "gone"}, {K: "REMOVE", H: "root", N: "gone"}, {K: "SYMLINK", H: "root", N: "s", Target: "a"}}
 	case "maxsparse":
-		return 3000, append(pop, fsx.Op{K: "CREATE", H: "root", N: "huge"}, fsx.Op{K: "SETATTR", H: "root/huge", Size: maxFile}, fsx.Op{K: "WRITE", H: "root/huge", Off: maxFile - 1, Cnt: 1, Pat: 0x62, Stable: 2})
+		return "", 3000, append(pop, fsx.Op{K: "CREATE", H: "root", N: "huge"}, fsx.Op{K: "SETATTR", H: "root/huge", Size: maxFile}, fsx.Op{K: "WRITE", H: "root/huge", Off: maxFile - 1, Cnt: 1, Pat: 0x62, Stable: 2})
 	case "tinyfull":
-		return 1539 + 1 + 6, append(pop, fsx.Op{K: "FILL"})
+		return "", 1539 + 1 + 6, append(pop, fsx.Op{K: "FILL"})
 	}
-	return 3000, nil
+	return "", 3000, nil
 }
 
 func c11Handles(w *World) [][]byte {
@@ -210,15 +231,26 @@ func c11Job(raw json.RawMessage) (interface{}, error) {
 		return c11BytesJob(a)
 	}
 	out := &c11Res{Replies: map[string]int64{}}
-	size, setup := c11Setup(a.State)
-	img := cachedMkfs(size)
+	prepName, size, setup := c11Setup(a.State)
+	var img *vdisk.Image
+	var prep *Prepared
+	if prepName != "" {
+		prep = prepared(prepName)
+	} else {
+		img = cachedMkfs(size)
+	}
 	// the named state is built once and snapshotted; every request then meets exactly that state on a fresh
 	// server instance (requests of one batch must not destroy each other's preconditions)
 	var stImg *vdisk.Image
 	var stVars *fsx.Vars
 	var hs [][]byte
-	bres := vrt.Run(vrt.Config{}, func() {
-		w := NewWorld(img)
+	bres := vrt.Run(vrt.Config{Horizon: 100_000_000}, func() {
+		var w *World
+		if prep != nil {
+			w = prep.World()
+		} else {
+			w = NewWorld(img)
+		}
 		w.Disk.Record = false
 		w.Model.AllowImplFail = true
 		for _, o := range setup {
@@ -253,6 +285,9 @@ func c11Job(raw json.RawMessage) (interface{}, error) {
 				d.Record = false
 				w := &World{Disk: d, Vars: fsx.NewVars(), Model: nil}
 				w.Srv = nfs.MakeNfs(d)
+				if a.Warm {
+					c11Warm(w, nil)
+				}
 				vrt.SetHorizon(vrt.Steps() + 400_000) // per request: more scheduling points than that is a loop that never ends
 				r := fsx.Exec(w.Srv, c.Op, c.H, c.H2)
 				vrt.SetHorizon(vrt.Steps() + 20_000_000)
@@ -337,8 +372,14 @@ func c11Mutants(b []byte) [][]byte {
 
 func c11BytesJob(a c11Arg) (interface{}, error) {
 	out := &c11Res{Replies: map[string]int64{}}
-	size, setup := c11Setup(a.State)
-	img := cachedMkfs(size)
+	prepName, size, setup := c11Setup(a.State)
+	var img *vdisk.Image
+	var prep *Prepared
+	if prepName != "" {
+		prep = prepared(prepName)
+	} else {
+		img = cachedMkfs(size)
+	}
 	// as in the structural part: the state is built once, every message meets it on a fresh server instance
 	type job struct {
 		prog, proc uint32
@@ -346,8 +387,13 @@ func c11BytesJob(a c11Arg) (interface{}, error) {
 	}
 	var jobs []job
 	var stImg *vdisk.Image
-	bres := vrt.Run(vrt.Config{}, func() {
-		w := NewWorld(img)
+	bres := vrt.Run(vrt.Config{Horizon: 100_000_000}, func() {
+		var w *World
+		if prep != nil {
+			w = prep.World()
+		} else {
+			w = NewWorld(img)
+		}
 		w.Disk.Record = false
 		w.Model.AllowImplFail = true
 		for _, o := range setup {
@@ -395,6 +441,9 @@ func c11BytesJob(a c11Arg) (interface{}, error) {
 				d.Record = false
 				w := &World{Disk: d, Vars: fsx.NewVars()}
 				w.Srv = nfs.MakeNfs(d)
+				if a.Warm {
+					c11Warm(w, nil)
+				}
 				var h func(*xdr.XdrState) (xdr.Xdrable, error)
 				for _, rg := range append(nfstypes.NFS_PROGRAM_NFS_V3_regs(w.Srv), nfstypes.MOUNT_PROGRAM_MOUNT_V3_regs(w.Srv)...) {
 					if rg.Prog == j.prog && rg.Proc == j.proc {
@@ -447,11 +496,8 @@ func init() {
 }
 
 func C11(r *report.Report, tier string) {
-	states := []string{"populated", "tinyfull"}
-	if tier == "thorough" {
-		states = append(states, "maxsparse")
-	}
-	r.Rule = "structural: per procedure the full product of boundary domains - 16 handles (empty, 3/8/15 bytes, root, file, directory, symlink, dead, inode 0 / 2^64-1 / beyond the table / free / wrong generation, 17 and 64 bytes), 12 names (empty, ., .., existing, new, 111/112/113/255/256/4096 bytes), 11 offsets/sizes up to 2^64-1, counts {0,1,4096,wtmax-1,wtmax,wtmax+1,2^32-1} with data lengths that agree and disagree, cookies, dircount/maxcount, stability and create modes incl. illegal ones; RENAME/LINK over all pairs of handles; in the states populated / tiny full disk (/ maximal sparse file); bytes: for one valid request per procedure (22 NFS + 6 MOUNT) every truncation, an extension, and every substitution of each 32-bit word by {0,1,2,3,63,64,65,0x7fffffff,0xffffffff}, decoded and executed through the registered rpcgen handlers; every call and every mutated message meets the named state on a fresh server instance (snapshot) under the controlled scheduler: a reply (or a decode rejection) must arrive - no panic, no deadlock, no runaway (400000 scheduling points per request) - and the sanity script (create, write, read back, lookup, remove, list) must succeed on the same instance afterwards. distinct_nontrivial = distinct (procedure, status) pairs"
+	states := []string{"populated", "tinyfull", "maxsparse", "inodes"}
+	r.Rule = "structural: per procedure the full product of boundary domains - 16 handles (empty, 3/8/15 bytes, root, file, directory, symlink, dead, inode 0 / 2^64-1 / beyond the table / free / wrong generation, 17 and 64 bytes), 12 names (empty, ., .., existing, new, 111/112/113/255/256/4096 bytes), 11 offsets/sizes up to 2^64-1, counts {0,1,4096,wtmax-1,wtmax,wtmax+1,2^32-1} with data lengths that agree and disagree, cookies, dircount/maxcount, stability and create modes incl. illegal ones; RENAME/LINK over all pairs of handles; in the states populated (objects in recycled inodes) / tiny full disk / maximal sparse file / inode table exhausted but for two numbers (32765 files); bytes: for one valid request per procedure (22 NFS + 6 MOUNT) every truncation, an extension, and every substitution of each 32-bit word by {0,1,2,3,63,64,65,0x7fffffff,0xffffffff}, decoded and executed through the registered rpcgen handlers; every call and every mutated message meets the named state on a fresh server instance (snapshot; once just started with cold caches, and - quick: populated state, thorough: all states - once after lookups, reads and listings have filled the inode and name caches) under the controlled scheduler: a reply (or a decode rejection) must arrive - no panic, no deadlock, no runaway (400000 scheduling points per request) - and the sanity script (create, write, read back, lookup, remove, list) must succeed on the same instance afterwards. distinct_nontrivial = distinct (procedure, status) pairs"
 	var jobs []interface{}
 	var descs []c11Arg
 	for _, st := range states {
@@ -468,6 +514,14 @@ func C11(r *report.Report, tier string) {
 		a := c11Arg{State: st, Bytes: true}
 		jobs = append(jobs, a)
 		descs = append(descs, a)
+	}
+	// the same with warm caches (quick: the populated state; thorough: every state)
+	for i, n := 0, len(descs); i < n; i++ {
+		if a := descs[i]; tier == "thorough" || a.State == "populated" {
+			a.Warm = true
+			jobs = append(jobs, a)
+			descs = append(descs, a)
+		}
 	}
 	par.Map("c11", jobs, par.Options{UlimitV: 16 << 20}, func(i int, res *par.Result) {
 		if res.Crashed || res.Err != "" {
